@@ -348,6 +348,10 @@ func genPokeCases(r *Rng, n int) {
 		wr := cr.Chance(50)
 		vs = append(vs, pokeMetaV1(wr, ptype, nonKey)...)
 		vs = append(vs, pokeMetaV2(wr, ptype, nonKey)...)
+		// the keys of requests, for every key type
+		kt := []string{"S", "N", "B"}[i%3]
+		vs = append(vs, pokeKeyV1(kt, i)...)
+		vs = append(vs, pokeKeyV2(kt, i)...)
 		if vs == nil {
 			vs = []pokeViolation{}
 		}
